@@ -249,6 +249,35 @@ func holdInfo(info fs.FileInfo, step string) {
 	infoLogMu.Unlock()
 }
 
+// entryAsInfo lets a DirEntry's own answers (name, kind) be held like a FileInfo: an entry is what the listing saw.
+type entryAsInfo struct{ e fs.DirEntry }
+
+func (e entryAsInfo) Name() string       { return e.e.Name() }
+func (e entryAsInfo) Size() int64        { return 0 }
+func (e entryAsInfo) Mode() fs.FileMode  { return e.e.Type() }
+func (e entryAsInfo) ModTime() time.Time { return time.Time{} }
+func (e entryAsInfo) IsDir() bool        { return e.e.IsDir() }
+func (e entryAsInfo) Sys() any           { return nil }
+
+// holdEntries keeps the entries of a listing, and the FileInfo each hands out right now, for ChangedInfos.
+func holdEntries(entries []fs.DirEntry, step string) {
+	if !RecordInfos.Load() {
+		return
+	}
+	for _, e := range entries {
+		if e == nil {
+			continue
+		}
+		func() {
+			defer func() { _ = recover() }()
+			holdInfo(entryAsInfo{e}, step+" entry "+e.Name())
+			if info, err := e.Info(); err == nil && info != nil {
+				holdInfo(info, step+" entry "+e.Name()+" .Info()")
+			}
+		}()
+	}
+}
+
 // ChangedInfos returns "step: said then -> says now" for every held info whose answers changed, and forgets all.
 func ChangedInfos() []string {
 	infoLogMu.Lock()
@@ -481,6 +510,7 @@ func Exec(fsys hackpadfs.FS, st Step, hs *Handles, mt MTimeSet) (res Result) {
 		fillErr(&res, err)
 		if err == nil {
 			res.Data = EntriesString(entries)
+			holdEntries(entries, st.String())
 			for i := range entries {
 				entries[i] = nil // the returned slice is the caller's
 			}
@@ -690,6 +720,7 @@ func execHandle(f hackpadfs.File, st Step, res *Result) {
 		}
 		sort.Strings(names) // page order is unspecified for handle reads (os returns directory order)
 		res.Data = strings.Join(names, ",")
+		holdEntries(entries, st.String())
 		for i := range entries {
 			entries[i] = nil // the returned slice is the caller's: callers filter and reorder it in place
 		}
